@@ -1,13 +1,17 @@
 (* The loader as it was BEFORE the commits
      2f69527 "fix: sparse file loader handles an empty index and a zero-length read at the end"
      0331e86 "fix: sparse file start-up replaces a saved state it did not use"
-     61c4b65 "fix: sparse file reader reports a store's io.EOF as an unexpected EOF".
+     61c4b65 "fix: sparse file reader reports a store's io.EOF as an unexpected EOF"
+     and the start-up reordering ("fix: sparse file start-up replaces the saved state before it resizes the cache file").
    Only the differences to Model/Sparse.v are written here, as wrappers around [step]:
      * indexRange tested `length < 1` BEFORE `firstChunk >= len(chunks)` and loadRange had no early return for an
        empty chunk list ([index_range_pre], the scan step of [step_pre]);
      * NewSparseFile left the saved state on disk when it did not use it ([restart_pre]);
      * ReadAt handed a store error that IS io.EOF to its caller unchanged: (0, io.EOF), the observation "end of file"
-       ([fix_eof] = false in [step_pre]). *)
+       ([fix_eof] = false in [step_pre]);
+     * NewSparseFile resized the cache file first and replaced the state last: a start-up that returned an error in
+       between (init file missing or of the wrong length) left the old state next to a blank full-size cache file
+       ([LFailedStart] with [fix_state] = false: the effect of [restart_pre] without pre-load). *)
 From Coq Require Import List NArith ZArith Arith Bool.
 From DS Require Import Base.Bytes Base.Hash Model.ReadSeeker Model.Sparse.
 Import ListNotations.
@@ -63,6 +67,9 @@ Section Pre.
   Definition step_pre (fix_range fix_state fix_eof : bool) (s : sstate) (l : label) : option sstate :=
     match l with
     | LRestart m => if fix_state then step idx nullid store s l else Some (restart_pre s m)
+    | LFailedStart m =>
+        if fix_state then step idx nullid store s l
+        else Some (restart_pre s (mkmode (m_state m) (m_cache m) false))
     | LThread k =>
         match (if fix_eof then None else eof_through s k) with
         | Some s' => Some s'
